@@ -38,6 +38,11 @@ def set_init(it, env, res):
     it.ctx.ghost['norm0'] = res[0]
 
 
+def count_iter(it, env, res):
+    from pyvc.values import scalar_arith
+    it.ctx.ghost['n_iter'] = scalar_arith('+', it.ctx.ghost['n_iter'], 1)
+
+
 NORM_OK = 'is_nan(result) or result >= 0'
 MET = "(ghost('last_norm') <= %s or ghost('last_norm') / ghost('norm0') <= %s)" % (OPT % 'atol', OPT % 'rtol')
 
@@ -50,7 +55,10 @@ NL_ASSUMED = {
     # (b) no iteration is started from an iterate that already meets a tolerance, except the
     # single forced iteration under complex step
     'self._single_iteration': Assumed(
-        requires=['not (norm <= atol or norm / norm0 <= rtol) or (system.under_complex_step and self._iter_count == 0)'],
+        requires=['not (norm <= atol or norm / norm0 <= rtol) or (system.under_complex_step and self._iter_count == 0)',
+                  # the iteration counter counts the iterations that are really performed
+                  "ghost('n_iter') == self._iter_count"],
+        ghost=count_iter,
         note='one solver iteration: assumed not to raise and not to touch solver control state'),
     'self._print_exc_debug_info': Assumed(),
 }
@@ -94,6 +102,8 @@ POST_SOLVE = [
     "self._iter_count <= %s or self._iter_count == 0 or (self._system().under_complex_step and self._iter_count == 1)" % (OPT % 'maxiter'),
     # (c)+(e) a failure is reported exactly when no tolerance is met by the last iterate
     "iff(ghost('reported'), not %s)" % MET,
+    # _iter_count is the number of iterations actually performed
+    "ghost('n_iter') == self._iter_count",
 ]
 
 SOLVE_MODIFIES = ['self._iter_count', 'self._norm0', "self.linesearch.options['print_bound_enforce']"]
@@ -107,6 +117,7 @@ NL_INV = [
     # reachable-state facts about NaN propagation (without them the cut state is too liberal)
     'implies(is_nan(norm0), is_nan(norm) or system.under_complex_step)',
     "not ghost('reported')",
+    "ghost('n_iter') == self._iter_count",
     "implies(self.linesearch is not None, same_fp_bool(self.linesearch.options['print_bound_enforce'], old(self.linesearch.options['print_bound_enforce'])))",
 ]
 
@@ -118,7 +129,7 @@ contract(F + '::NonlinearSolver._solve', ['C09'], dict(self=nl_solver()),
          modifies=SOLVE_MODIFIES,
          invariants={'loop0': NL_INV},
          assumed=dict(NL_ASSUMED), inline={'_inf_nan_failure', '_convergence_failure', 'report_failure'},
-         ghost_init={'reported': False}, ghost_on_call={'report_failure': {'reported': True}},
+         ghost_init={'reported': False, 'n_iter': 0}, ghost_on_call={'report_failure': {'reported': True}},
          ghost_on_result={'_iter_initialize': set_init}, max_paths=3000, defs={'fp_div': 'uf'})
 
 
@@ -150,6 +161,8 @@ def native_scripted(kind):
         def ghost(name):
             if name == 'norm0':
                 return s._norm0
+            if name == 'n_iter':
+                return state['iters']          # calls of _single_iteration counted by the scripted solver
             return state[name]
         return dict(self=s), dict(ghost=ghost, __state__=state)
     return build
@@ -234,7 +247,7 @@ def ln_solver(cls='LinearSolver', **extra):
 
 LN_ASSUMED = dict(NL_ASSUMED)
 LN_ASSUMED['self._single_iteration'] = Assumed(
-    requires=['not (norm <= atol or norm / norm0 <= rtol)'],
+    requires=['not (norm <= atol or norm / norm0 <= rtol)', "ghost('n_iter') == self._iter_count"], ghost=count_iter,
     note='one solver iteration: assumed not to raise and not to touch solver control state')
 # LinearSolver itself has no _iter_initialize; concrete block solvers provide it (verified below
 # against the same abstract contract)
@@ -247,12 +260,13 @@ LN_INV = [
     'norm0 != 0.0', 'is_nan(norm0) or norm0 > 0', 'is_nan(norm) or norm >= 0',
     'implies(is_nan(norm0), is_nan(norm))',
     "not ghost('reported')",
+    "ghost('n_iter') == self._iter_count",
 ]
 
 contract(F + '::LinearSolver._solve', ['C09'], dict(self=ln_solver()),
          requires=TOLS_OK[:2], fp=True,
          ensures=["self._iter_count >= 0", "self._iter_count <= %s or self._iter_count == 0" % (OPT % 'maxiter'),
-                  "iff(ghost('reported'), not %s)" % MET,
+                  "iff(ghost('reported'), not %s)" % MET, "ghost('n_iter') == self._iter_count",
                   "not (ghost('reported') and %s)" % (OPT % 'err_on_non_converge')],
          may_raise=['AnalysisError'],
          exc_ensures=["raised == 'AnalysisError'", "ghost('reported') and %s" % (OPT % 'err_on_non_converge'),
@@ -260,7 +274,7 @@ contract(F + '::LinearSolver._solve', ['C09'], dict(self=ln_solver()),
          modifies=['self._iter_count', 'self._norm0'],
          invariants={'loop0': LN_INV}, assumed=LN_ASSUMED,
          inline={'_inf_nan_failure', '_convergence_failure', 'report_failure'},
-         ghost_init={'reported': False}, ghost_on_call={'report_failure': {'reported': True}},
+         ghost_init={'reported': False, 'n_iter': 0}, ghost_on_call={'report_failure': {'reported': True}},
          max_paths=3000, defs={'fp_div': 'uf'},
          native=native_scripted('linear'), native_expand=expand_scenarios, sampler=scenario_sampler('linear'),
          native_ensures=["all(not (x <= self.options['atol'] or x / ghost('norm0') <= self.options['rtol']) for x in ghost('single_iteration_norms'))"],
